@@ -1153,7 +1153,7 @@ func generate(c *core.Ctx) []*CaseSpec {
 	// resume of a session that never existed
 	g.add(&CaseSpec{Class: "resume/unknown-sid", Tables: []*Tables{base}, Events: []Event{{Conn: &ConnSpec{Peer: addr1, Kind: "resume", ResumeOf: 7, Cmds: []int{cmdP}}}}})
 	// (5) sessions installed by the application (ImportClaimSession-style), every key kind
-	for _, key := range []string{"none", "aes", "badlen", "other"} {
+	for _, key := range []string{"none", "aes", "badlen", "empty", "other"} {
 		for _, authn := range []bool{false, true} {
 			for _, az := range []string{"none", "users"} {
 				for _, c1 := range []int{cmdP, cmdA, cmdE, cmdI, cmdAE, cmdR, cmdU, cmdN} {
@@ -1507,7 +1507,9 @@ func second(s string) string {
 }
 
 func replay(raw json.RawMessage) error {
-	slog.SetDefault(slog.New(slog.NewTextHandler(io.Discard, nil)))
+	if os.Getenv("VERIF_C05_LOG") == "" {
+		slog.SetDefault(slog.New(slog.NewTextHandler(io.Discard, nil)))
+	}
 	var probe struct {
 		Class string `json:"class"`
 	}
